@@ -171,10 +171,13 @@ func (s *backendStorageEtcd) EtcdKeyUpdated(client *EtcdClient, key string, data
 	var info BackendInformationEtcd
 	if err := json.Unmarshal(data, &info); err != nil {
 		log.Printf("Could not decode backend information %s: %s", string(data), err)
+		// The key no longer describes a backend, remove a previously added one.
+		s.EtcdKeyDeleted(client, key, prevValue)
 		return
 	}
 	if err := info.CheckValid(); err != nil {
 		log.Printf("Received invalid backend information %s: %s", string(data), err)
+		s.EtcdKeyDeleted(client, key, prevValue)
 		return
 	}
 
